@@ -487,6 +487,7 @@ def run_harness_shard(scens, workdir, idx):
         start = (done + 1 if done >= start else start) + 1
     # concatenate parts, dropping events of scenarios that did not finish (their prefix stays
     # in the hang record); keep only complete lines
+    stats = {"screened": 0, "hot": 0, "injections": 0}
     with open(tpath, "w") as out:
         for part in parts:
             if not os.path.exists(part):
@@ -501,10 +502,16 @@ def run_harness_shard(scens, workdir, idx):
                     except ValueError:
                         continue
                     buf.append(line)
+                    if r.get("ev") == "sweep":
+                        stats["screened"] += r.get("screened", 0)
+                        stats["hot"] += r.get("hot", 0)
+                        stats["injections"] += r.get("ninj", 0)
                     if r.get("ev") == "end":
                         out.writelines(buf)
                         buf = []
             os.unlink(part)
+    with open(tpath + ".stats.json", "w") as f:
+        json.dump(stats, f)
     return tpath, hangs
 
 
@@ -582,7 +589,15 @@ def run_and_validate(scens, nshards=NCPU, keep=False, proto=False):
         viol.extend(v)
         events += n
     hangs = [h for _, hs in res for h in hs]
-    out = dict(viol=viol, hangs=hangs, events=events, traces=len(scens), wall_h=t1 - t0, wall_t=t2 - t1, workdir=work,
+    sweep = {"screened": 0, "hot": 0, "injections": 0}
+    for tp, _ in res:
+        try:
+            st = json.load(open(tp + ".stats.json"))
+            for k in sweep:
+                sweep[k] += st.get(k, 0)
+        except (OSError, ValueError):
+            pass
+    out = dict(sweep=sweep, viol=viol, hangs=hangs, events=events, traces=len(scens), wall_h=t1 - t0, wall_t=t2 - t1, workdir=work,
                drift=drift, proto_calls=nchecked, proto_faults=nfaults, wall_p=t3 - t2)
     if not keep:
         shutil.rmtree(work, ignore_errors=True)
